@@ -5,6 +5,7 @@ import session
 import codec as C
 from oracle import bls as O
 from c10 import tai1, rhs1, M381
+import c07
 
 Q, R = O.Q, O.R
 
@@ -48,7 +49,20 @@ def worker(sh):
         if mode != 0 and ms != '-' and C.unle(ms) % R == 0:
             ms = '-'      # with s = 0 mod r every secret key is the identity: nothing can differ
         kl = rng.choice(keylens)
-        lines.append('lq %d %s %d %d %s' % (rng.getrandbits(40), hb, kl, mode, ms))
+        # random streams for encryption / setup that force rejections in the exponent sampler: digits at and above |x|, candidates at
+        # and just above r (the outer rejection), several of them in a row
+        def stream():
+            t = rng.randrange(4)
+            if t == 0:
+                return c07.make_stream(rng, rng.choice([0, 1, 3]), rng.choice([1, 1, 2, 3]))
+            if t == 1:
+                return c07.boundary_stream(rng, rng.choice([0, 0, 1, -1, 5, 1 << 64]))
+            if t == 2:
+                return c07.digit_edge_stream(rng, rng.randrange(4), rng.choice([c07.XA - 1, c07.XA, c07.XA + 1, (1 << 64) - 1]))
+            return c07.make_stream(rng, rng.choice([1, 5]), 0)
+        es = stream().hex() if rng.random() < 0.4 else '-'
+        ss = stream().hex() if (ms == '-' and rng.random() < 0.25) else '-'
+        lines.append('lq %d %s %d %d %s %s %s' % (rng.getrandbits(40), hb, kl, mode, ms, es, ss))
         meta.append((h, kl, mode, ms))
     outs = session.run_all(sh, sh.payload['cfgs'], lines)
     deep_budget = sh.pick(1, 6)
@@ -61,6 +75,9 @@ def worker(sh):
             sh.violation('lqibe:%s' % aspect, '%s: %s -> %s' % (msg, line, ' '.join(out)[:300]), {'line': line})
         try:
             cls = 'mode%d/keylen%d/%s' % (mode, kl, 'random-master' if ms == '-' else ('master>=r' if C.unle(ms) >= R else 'master<r'))
+            toks = line.split()
+            if toks[6] != '-' or toks[7] != '-':
+                cls += '/rejection-forcing-stream:' + '+'.join(n for n, t in (('encrypt', toks[6]), ('setup', toks[7])) if t != '-')
             if kv['calls'] != '2':
                 fail('hash-calls', 'hash function called %s times for one encrypt + one decrypt' % kv['calls'])
             if kv['inlen'] != '720,720':
